@@ -69,7 +69,7 @@ def contents(bb):
     """Part contents; none of them contains the boundary bb."""
     pre = bb[:-1]
     return [b"", b"x", b"\r\n", b"--", b"\r\n--" + pre, b"\xff", b"x\r\n",
-            b"\r\n\r\n--" + pre + b"--\r\n"]
+            b"\r\n\r\n--" + pre + b"--\r\n", b"x\r", b"\r"]
 
 
 # --------------------------------------------------------------------------
@@ -786,7 +786,7 @@ class C30(Check):
     design_ref = "DESIGN.md C30"
     exhaustive = True
     rule = ("forms: every name/filename of length <= 2 (thorough 3) over {a,\",\\,;,=,SP,CR,LF,"
-            "e-acute,U+4E2D} x 8 contents (empty, x, CRLF, --, CRLF+boundary prefix, 0xFF, ...) "
+            "e-acute,U+4E2D} x 10 contents (empty, x, CRLF, --, CRLF+boundary prefix, 0xFF, ending in CR, ...) "
             "x every applicable parameter style (quoted-string, token, RFC 2231/5987 ext-value, "
             "fallback+ext, continuations) x content-type / part-header / tail variants, forms of "
             "0..3 items, urlencoded forms x 5 encoder variants, encoded by this file's own RFC "
@@ -1046,7 +1046,7 @@ class C30(Check):
         for L in LIMIT_H + [10240]:
             for H in range(max(40, L - 6), max(40, L - 6) + 13):
                 for pos in (0, 1):
-                    for pad in ("name", "xhdr", "filename"):
+                    for pad in ("name", "xhdr", "filename", "xhdr-utf8"):
                         for path in (LIMIT_PATHS if L != 10240 else ["default", "kw"]):
                             out.append({"t": "hdr", "L": L, "H": H, "pos": pos, "pad": pad,
                                         "path": path})
@@ -1094,7 +1094,12 @@ class C30(Check):
                 if H - base < 1:
                     return None
                 big = ["field", "a", b"2"]
-                hdr = 'Content-Disposition: form-data; name="a"\r\nX-Pad: ' + "p" * (H - base)
+                if d["pad"] == "xhdr-utf8":
+                    # two-byte characters: the limit is a size in bytes, the header has about half as many characters
+                    hdr = ('Content-Disposition: form-data; name="a"\r\nX-Pad: ' + "\u00e9" * ((H - base) // 2)
+                           + "p" * ((H - base) % 2))
+                else:
+                    hdr = 'Content-Disposition: form-data; name="a"\r\nX-Pad: ' + "p" * (H - base)
             if big[0] == "field" and big[1] == "":
                 return None
             items = [big, small] if d["pos"] == 0 else [small, big]
